@@ -17,7 +17,8 @@ EXTENDS Integers, Sequences, FiniteSets, TLC
 \* ------------------------------------------------------------------ the content worlds
 (* World "w1": alice (outbox a1 = Create n1, a2 = Announce n3; one bio link; picture), bob (empty outbox),
                thread n1 <- n2 <- n3 (n3 by alice and bob, with media), nf a reply that fails to load.
-   World "w2": carol (outbox of two pages c1..c5 = Create m1..m5; picture and banner), grp (a group),
+   World "w2": carol (outbox of two pages, c1 c2 | c3 c4 c5 = Create m1..m5, so that the first load of the outbox opened
+               by its address straddles the page boundary; picture and banner), grp (a group),
                m1 addressed to grp with one link, m2 with four ancestors q1 <- q2 <- q3 <- q4 (more than one
                preload step) and media, m3 whose parent fails to load (bp), m4 with the reply m5.
    "fo" is the failure page shown for an address that cannot be fetched.                              *)
@@ -77,7 +78,7 @@ OutHook(st, kind, item, n) == [st |-> st, hook |-> [k |-> kind, item |-> item, n
 
 \* ------------------------------------------------------------------ keys
 Digits == {"0", "1", "2", "3", "9"}
-CmdToks == {"open_a", "open_p", "open_bad", "feed_f", "feed_u", "bad_cmd"}
+CmdToks == {"open_a", "open_p", "open_c", "open_bad", "feed_f", "feed_u", "bad_cmd"}
 CharKeys == {"j", "k", "g", "h", "l", "sp", "c", "r", "a", "o", "p", "b", "x", "hi", "dot"} \cup Digits \cup {"colon"}   \* "x": an unbound ASCII key, "hi": a byte >= 0x80
 Keys == CharKeys \cup {"enter", "esc", "bs"} \cup CmdToks
 
@@ -107,10 +108,11 @@ RunCommand(st) ==
     IF Len(st.buf) = 1 THEN
         CASE st.buf[1] = "open_a"     -> Push(n, ItemPage(OpenActor))
           [] st.buf[1] = "open_p"     -> Push(n, ItemPage(OpenPost))
+          [] st.buf[1] = "open_c"     -> Push(n, ListPage(Kids[OpenActor]))    \* a collection opened by its address: a page listing its items
           [] st.buf[1] = "open_bad"   -> Push(n, ItemPage("fo"))
           [] st.buf[1] = "feed_f"     -> Push(n, ListPage(FeedF))
           [] OTHER                    -> n          \* unknown feed, unknown command, no space: a problem frame at most
-    ELSE IF Len(st.buf) > 1 /\ st.buf[1] \in {"open_a", "open_p", "open_bad"} THEN Push(n, ItemPage("fo"))   \* text after the URL
+    ELSE IF Len(st.buf) > 1 /\ st.buf[1] \in {"open_a", "open_p", "open_c", "open_bad"} THEN Push(n, ItemPage("fo"))   \* text after the URL
     ELSE n
 
 (* the dispatcher, in the order of ui.Update; keys are ignored while loading, which a settled UI never is *)
